@@ -143,6 +143,11 @@ impl<S: Stream + Unpin> Stream for MergeUnbounded<S> {
                 }
             }
         }
+        // all the remaining groups may have turned out to be empty during this call (only the
+        // retained last allocation is left): nothing will ever wake us, so this is the end
+        if groups.iter().all(|g| g.streams.is_empty()) {
+            return Poll::Ready(None);
+        }
         Poll::Pending
     }
 }
